@@ -44,3 +44,9 @@ func (c *SimContext) Informers() controllercontext.Informers   { return c.inform
 func (c *SimContext) SetConfig(name configv1alpha1.ConfigName, cfg runtime.Object) {
 	c.configs.SetConfigs(map[configv1alpha1.ConfigName]runtime.Object{name: cfg})
 }
+
+// ResetStores drops every registered store (controller restart).
+func (c *SimContext) ResetStores() { c.stores = controllercontext.NewContextStores() }
+
+// RegisterStore registers a store with the context.
+func (c *SimContext) RegisterStore(s controllercontext.Store) { c.stores.Register(s) }
